@@ -22,6 +22,9 @@ MS = "/tmp/ms"
 ORDER = ["C01", "C04", "C05", "C06", "C10", "C11", "C12", "C13", "C14", "C15", "C16", "C17", "C18", "C19",
          "C07", "C08", "C09", "C02", "C03", "C20"]
 
+FIRST = {"vclock.rs": ["C10"], "dot.rs": ["C10"], "identifier.rs": ["C14"], "lwwreg.rs": ["C11"], "maxreg.rs": ["C11"], "minreg.rs": ["C11"],
+         "gset.rs": ["C11"], "gcounter.rs": ["C11"], "pncounter.rs": ["C11"], "merkle_reg.rs": ["C15"], "mvreg.rs": ["C06"],
+         "orswot.rs": ["C04"], "map.rs": ["C05"], "list.rs": ["C12", "C13"], "glist.rs": ["C13"], "ctx.rs": ["C07"]}
 SKIP_FILES = {"lib.rs", "quickcheck.rs", "serde_helper.rs", "vvwe.rs"}
 
 # (name, regex, replacement) applied to one occurrence on one line
@@ -95,13 +98,18 @@ def gen():
 
 def setup_worker(i):
     w = os.path.join(MS, "w%d" % i)
-    if os.path.exists(w):
-        shutil.rmtree(w)
-    os.makedirs(w)
-    subprocess.run(["rsync", "-a", "--exclude", ".git", "--exclude", "target", REPO + "/", os.path.join(w, "repo/")], check=True)
-    subprocess.run(["rsync", "-a", "--exclude", ".git", "--exclude", "work/res-*", "--exclude", "work/mutants", "--exclude", "work/traces*",
+    os.makedirs(w, exist_ok=True)
+    subprocess.run(["rsync", "-a", "--delete", "--exclude", ".git", "--exclude", "target", REPO + "/", os.path.join(w, "repo/")], check=True)
+    dl = os.path.join(w, "verif", "work", "dumps")
+    subprocess.run(["rsync", "-a", "--exclude", ".git", "--exclude", "work/dumps", "--exclude", "work/results", "--exclude", "work/replays", "--exclude", "harness/target", "--exclude", "work/res-*", "--exclude", "work/mutants", "--exclude", "work/traces*",
                     "--exclude", "work/cache", "--exclude", "work/*.log", "--exclude", "seeded", "--exclude", "benign",
                     VERIF + "/", os.path.join(w, "verif/")], check=True)
+    if os.path.islink(dl):
+        os.remove(dl)
+    if os.path.isdir(dl):
+        shutil.rmtree(dl)
+    # TLC dump cache: hard links (no extra disk; a deletion in one copy does not affect the others)
+    subprocess.run(["cp", "-al", os.path.join(VERIF, "work", "dumps"), dl], check=True)
     ct = os.path.join(w, "verif", "harness", "Cargo.toml")
     t = open(ct).read().replace('path = "/repo"', 'path = "%s"' % os.path.join(w, "repo"))
     open(ct, "w").write(t)
@@ -127,7 +135,8 @@ def run_one(w, m):
             return res
         res["status"] = "survived"
         res["exits"] = {}
-        for p in ORDER:
+        first = FIRST.get(m["file"], [])
+        for p in first + [x for x in ORDER if x not in first]:
             q = subprocess.run([os.path.join(verif, "bin", "check"), p, "--tier", "quick"], cwd=verif, env=env,
                                stdout=subprocess.PIPE, stderr=subprocess.STDOUT, text=True)
             res["exits"][p] = q.returncode
